@@ -151,8 +151,29 @@ def _run_child(case, cfg, i, folder, out, use_pool):
                     if isinstance(st_arg, dict):
                         st_arg = {(S(k) if k != "" else k): x for k, x in st_arg.items()}
                     ish = mapgen.internal_shapes_arg(case)
-                    r = pipeline.map(inputs, run_folder=folder, internal_shapes=({S(k): x for k, x in ish.items()} if ish else None),
-                                     storage=st_arg, persist_memory=True, **kw)
+                    ishs = ({S(k): x for k, x in ish.items()} if ish else None)
+                    staged = False
+                    if i % 4 == 1:
+                        # the folder is built up in stages: first only one output is requested, then the whole pipeline
+                        # continues in the same folder (cleanup=False); what a fresh interpreter loads afterwards must
+                        # describe the WHOLE run
+                        singles = [S(f["outs"][0]) for f in case["funcs"] if len(f["outs"]) == 1]
+                        if singles:
+                            try:
+                                pipeline.map(inputs, run_folder=folder, internal_shapes=ishs, storage=st_arg, parallel=False,
+                                             output_names={singles[0]})
+                                staged = True
+                            except Exception:  # noqa: BLE001  (a refused first stage is not this check's subject)
+                                staged = False
+                    try:
+                        r = pipeline.map(inputs, run_folder=folder, internal_shapes=ishs, storage=st_arg, persist_memory=True,
+                                         cleanup=not staged, **kw)
+                    except Exception:  # noqa: BLE001
+                        if not staged:
+                            raise
+                        staged = False  # continuing was refused: a plain run instead
+                        r = pipeline.map(inputs, run_folder=folder, internal_shapes=ishs, storage=st_arg, persist_memory=True, **kw)
+                    res["staged"] = staged
                     res["results"] = {k: probes.render(x.output) for k, x in r.items()}
                     res["same_process"] = loader04.describe_folder(folder, [S(o) for f in case["funcs"] for o in f["outs"]])
                     code = 0
@@ -270,6 +291,8 @@ def run_case(desc):
                     continue
                 v.count("folders_written")
                 v.count(f"folders:{cfg}")
+                if run.get("staged"):
+                    v.count("folders_built_in_stages")
                 if _wraps(i) and any(r["kind"] == "scalar" for r in case["roots"].values()):
                     v.count("folders_with_main_class_instances")
                 pre = "sc." if _scoped(i) else ""
@@ -294,7 +317,7 @@ def run_case(desc):
             for jid, (case, cfg, i, env, run) in meta.items():
                 v.count("folders_reloaded_fresh")
                 v.count(f"fresh:{cfg}")
-                w = dict(case=mapgen.describe(case), storage=str(storage_arg(case, cfg, i)), pool=(i % 4 == 1))
+                w = dict(case=mapgen.describe(case), storage=str(storage_arg(case, cfg, i)), pool=(i % 4 == 1), staged=bool(run.get("staged")))
                 compare(v, case, cfg, i, env, run, _unscope(fresh[jid]) if _scoped(i) else fresh[jid], w)
                 if mapgen.nontrivial(case):
                     keys.append(mapgen.signature(case) + "|" + cfg)
@@ -311,6 +334,8 @@ def finalize(agg, tier, seed):
             floors.append(f"only {agg.counters.get(f'fresh:{cfg}', 0)} folders reloaded in a fresh process for {cfg}")
     if agg.counters.get("folders_with_scoped_names", 0) < 10 or agg.counters.get("cases_with_a_None_valued_element", 0) < 5:
         floors.append("too few folders with scoped names / cases with a None-valued element")
+    if agg.counters.get("folders_built_in_stages", 0) < 10:
+        floors.append(f"only {agg.counters.get('folders_built_in_stages', 0)} folders built up in stages (< 10)")
     if agg.counters.get("skipped_run_refused", 0) * 3 > max(1, agg.counters.get("folders_written", 0)):
         floors.append("more than a quarter of the runs were refused (see C01)")
     return floors, {}
